@@ -129,8 +129,14 @@ def impl_one(case):
             except vol.Invalid:
                 return "0"
         ch = ChildSensor(1, case["ctype"])
+        # what the child has STORED is not what is being judged: the explicit `values` argument is (also when it is
+        # empty); the stored map is only the default
+        ch.values = {2: "not-a-bit", 9999: "x"} if len(case["values"]) % 2 == 0 else {}
         try:
             ch.validate(VERS[case["v"]], dict(case["values"]))
+            if not case["values"]:
+                ch.values = {}
+                ch.validate(VERS[case["v"]])          # the default path, on an empty stored map
             return "ok 1"
         except vol.Invalid:
             return "ok 0"
@@ -362,6 +368,10 @@ def run(ctx, res):
             if mo[0] != o:
                 res.violate("corr:childval", f"model={mo[0]} implementation={o} for {c}", c,
                             kind="correspondence", found_input=False)
+            if o == "ok 0" and not c["values"] and 0 <= c["ctype"] <= MAXSUB[0][c["v"]]:
+                res.violate("child-empty-value-map-rejected",
+                            f"ChildSensor.validate(version {VERS[c['v']]}, values={{}}) rejects the EMPTY value map of a child of "
+                            f"type {c['ctype']} (whatever the child has stored is not what was asked)", c)
             if o == "keyerror" and 0 <= c["ctype"] <= MAXSUB[0][c["v"]]:
                 res.violate("child-schema-keyerror", f"ChildSensor.validate raised KeyError for defined type {c}", c)
             if c["values"]:
